@@ -296,6 +296,10 @@ func (env *Env) applyUF(uf *UFunc, c *ast.CallExpr) Value {
 			if sorts[len(sorts)-1] == sInt && len(t) < 300 && !isLiteralInt(t) {
 				env.s.trigger(sInt, t)
 			}
+			// string arguments likewise (node / version names)
+			if sorts[len(sorts)-1] == sStr && len(t) < 300 && !strings.HasPrefix(t, "\"") {
+				env.s.trigger(sStr, t)
+			}
 		}
 	}
 	tenv := *env
